@@ -178,3 +178,194 @@ def replay_case(rp, work):
         if st["done"]:
             fails += run_case(st, exe) or []
     return fails
+
+
+# --------------------------------------------------------------------------- two jumps (sampled cases, evaluated by TLC in batches)
+def member_paths(L, R, M, maxold):
+    """All +-1 walks of 3..maxold frames that are members of the plus ensemble (L, M, R)."""
+    out = []
+
+    def grow(p):
+        if len(p) >= 3 and (p[-1] <= L or p[-1] >= R):
+            if max(p) >= M:
+                out.append(list(p))
+            return
+        if len(p) >= 2 and not (L < p[-1] < R):
+            return
+        if len(p) == maxold:
+            return
+        for d in (1, -1):
+            grow(p + [p[-1] + d])
+    for x0 in range(L, L + 1):
+        grow([x0])
+    return [p for p in out if p[0] <= L and all(L < x < R for x in p[1:-1])]
+
+
+def run_case2(case, out, exe_dir):
+    from infretis.core import tis
+    from harness.plugins.lattice_engine import LatticeScriptExhausted
+    L, M, R, C, wall = (_CONST[k] for k in ("L", "M", "R", "C", "Wall"))
+    old, pick, ix1, b1, f1, ix2, b2, f2, eb, ef, ml = case
+    for f in os.listdir(exe_dir):
+        os.remove(os.path.join(exe_dir, f))
+    segs = segments(list(old), M, C)
+    counts = [b - a - 1 for a, b in segs]
+    u = (sum(counts[:pick - 1]) + 0.5 * counts[pick - 1]) / sum(counts)
+    path = moves.make_path(list(old), exe_dir)
+    rg = moves.ScriptedRgen(integers=[ix1 - 1, ix2 - 1], randoms=[u])
+    eng = moves.engine(exe_dir, left_wall=wall)
+    calls = [list(b1)] + ([list(f1)] if out["back1"] else []) + [list(b2)] + ([list(f2)] if out["back2"] else [])
+    calls += ([list(eb)] if out["needB"] else []) + ([list(ef)] if out["needF"] else [])
+    eng.script_calls = calls
+    es = moves.ens_set(L + 0.5, M - 0.5, R - 0.5, ml, rg, cap=C - 0.5, n_jumps=2, move="wf")
+    before = moves.snapshot(path)
+    try:
+        accept, trial, status = tis.wire_fencing(es, path, eng, start_cond=("L",))
+    except LatticeScriptExhausted:
+        return [("harness:script", "the engine asked for more steps than the case scripts (harness)")]
+    except Exception as exc:  # noqa: BLE001
+        return [(f"raise:{type(exc).__name__}", f"wire_fencing (two jumps) raised {type(exc).__name__}: {exc}")]
+    fails = []
+    what = (f"two jumps: old path {list(old)}, segment {pick}, shooting frames {ix1 - 1} / {ix2 - 1}, steps {list(b1)} {list(f1)} | {list(b2)} {list(f2)} | "
+            f"{list(eb)} {list(ef)}, maxlength {ml}: sub-moves succeed {out['ok1']} / {out['ok2']}, the specification's path is {list(out['path'])}")
+    if bool(accept) != (status == "ACC"):
+        fails.append(("wf2:acc_iff_status", f"accept = {accept} but status = {status!r}"))
+    ints = [c for c in rg.calls if c[0] == "integers"]
+    if len(ints) >= 2 and ints[1][2] is not None and ints[1][2] != out["seglen1"] - 1:
+        fails.append(("wf2:second-segment", f"{what}; the second sub-move drew its shooting index below {ints[1][2]}, the segment it has to shoot from has {out['seglen1']} frames"))
+    want = out["verdict"]
+    if want == "accept" and not accept:
+        fails.append(("wf2:rule:rejects", f"{what}; the code rejected with {status}, the property accepts"))
+    if want == "reject" and accept:
+        fails.append(("wf2:rule:accepts", f"{what}; the code accepted {moves.positions(trial)}, the property rejects"))
+    if accept:
+        got = moves.positions(trial)
+        if want != "reject" and got != list(out["path"]):
+            fails.append(("wf2:content", f"{what}; the code's path is {got}"))
+        if trial.generated[0] != "wf" or int(trial.generated[2]) != int(out["ok1"]) + int(out["ok2"]):
+            fails.append(("wf2:generated", f"{what}; generated = {trial.generated}, successful sub-moves {int(out['ok1']) + int(out['ok2'])}"))
+    if moves.snapshot(path) != before:
+        fails.append(("wf2:old_untouched", f"the old path or its files changed during the move (status {status})"))
+    return fails
+
+
+def _job2(args):
+    cases_with_out = args
+    work = common.tmpdir("wfm2-")
+    res = []
+    try:
+        for case, out in cases_with_out:
+            for sig, msg in run_case2(case, out, work) or []:
+                res.append((sig, msg, [list(x) if isinstance(x, (list, tuple)) else x for x in case]))
+    finally:
+        shutil.rmtree(work, ignore_errors=True)
+    return len(cases_with_out), res
+
+
+def run_two_jumps(chk, pid, tier, work, seed):
+    import random
+    q = tier == "quick"
+    consts = dict(_CONST, MaxOld=5)
+    _CONST.update(consts)
+    L, M, R, C = consts["L"], consts["M"], consts["R"], consts["C"]
+    rnd = random.Random(seed)
+    olds = [p for p in member_paths(L, R, M, 7 if not q else 5) if segments(p, M, C)]
+    ncase = 3000 if q else 30000
+    cases = []
+    for _ in range(ncase):
+        o = rnd.choice(olds)
+        sg = segments(o, M, C)
+        pk = rnd.randrange(1, len(sg) + 1)
+        a, b = sg[pk - 1]
+        ix1 = rnd.randrange(2, b - a + 1)
+        steps = lambda: [rnd.choice([-1, 1]) for _ in range(3)]  # noqa: E731
+        cases.append((tuple(o), pk, ix1, tuple(steps()), tuple(steps()), rnd.randrange(2, 6), tuple(steps()), tuple(steps()), tuple(steps()), tuple(steps()),
+                      rnd.choice([5, 7, 9, 30])))
+    cases = sorted(set(cases))
+
+    def tla(x):
+        if isinstance(x, tuple):
+            return "<<" + ", ".join(tla(v) for v in x) + ">>"
+        return str(x)
+    write_model(work, consts, "{30}")
+    with open(os.path.join(work, "MC_WfMove2.tla"), "w") as fh:
+        fh.write("---- MODULE MC_WfMove2 ----\nEXTENDS WfMove\n" + f"MLs == {{30}}\nWallDef == {consts['Wall']}\n"
+                 "Cases == {" + ",\n  ".join(tla(c) for c in cases) + "}\n"
+                 "BatchInit == /\\ res \\in Cases /\\ old = <<>> /\\ pick = 0 /\\ idx = 0 /\\ sb = <<>> /\\ sf = <<>> /\\ eb = <<>> /\\ ef = <<>>\n"
+                 "             /\\ maxlength = 0 /\\ done = FALSE\n"
+                 "BatchApply == /\\ ~done /\\ done' = TRUE /\\ res' = [case |-> res, out |-> Result2(res)]\n"
+                 "              /\\ UNCHANGED <<old, pick, idx, sb, sf, eb, ef, maxlength>>\n"
+                 "BatchSpec == BatchInit /\\ [][BatchApply]_vars\n"
+                 "BatchOk == done => ((res.out.feasible /\\ res.out.verdict = \"accept\") =>\n"
+                 "             (MemberPlus(res.out.path, L, M, R) /\\ Len(res.out.path) <= res.case[11] /\\\n"
+                 "              (Contains(res.out.path, res.out.sub) \\/ Contains(res.out.path, RevSeq(res.out.sub)))))\n====\n")
+    cfg = os.path.join(work, "WfMove2.cfg")
+    with open(cfg, "w") as fh:
+        fh.write("SPECIFICATION BatchSpec\nCONSTANTS\n" + "".join(f"  {k} = {v}\n" for k, v in consts.items() if k != "Wall")
+                 + "  Wall <- WallDef\n  MaxLengths <- MLs\nINVARIANT BatchOk\nCHECK_DEADLOCK FALSE\n")
+    dot = os.path.join(work, "wf2.dot")
+    res = tlc.run_tlc(os.path.join(work, "MC_WfMove2.tla"), cfg, dump=dot, timeout=3000, allow_violation=True, cwd=work, heap="8g")
+    chk.add_tlc(res, dict(consts, jumps=2, cases=len(cases)))
+    if not res["ok"]:
+        chk.machinery(f"TLC refuted {res['violated']} on WfMove.tla (two jumps)")
+    raw, _i, _e = tlc.read_dot(dot, parse=False)
+    os.remove(dot)
+    todo = []
+    for sid in sorted(raw):
+        st = tlc.parse_state(raw[sid])
+        if st["done"] and st["res"]["out"]["feasible"]:
+            todo.append((tuple(st["res"]["case"]), st["res"]["out"]))
+    results = common.pmap(_job2, common.chunks(todo, 64))
+    n = nacc = 0
+    for k, fails in results:
+        n += k
+        for sig, msg, case in fails:
+            if sig.startswith("harness:"):
+                chk.machinery(msg)
+                continue
+            chk.violation(sig, msg, {"property": pid, "binding": "B", "spec": "WfMove", "constants": consts, "case2": case, "clause": sig, "kind": "wfmove2-case"})
+    nacc = sum(1 for _c, o in todo if o["verdict"] == "accept")
+    both = sum(1 for _c, o in todo if o["ok1"] and o["ok2"])
+    chk.evaluated(n)
+    chk.traces(n)
+    for i in range(n):
+        chk.nontrivial(("wfmove2", i))
+    if both < 20:
+        chk.machinery(f"only {both} sampled two-jump moves have two successful sub-moves")
+    print(f"  WfMove (two jumps): {len(cases)} sampled cases evaluated by TLC, {n} realisable ones executed on the real wire_fencing() "
+          f"({nacc} accepted, {both} with two successful sub-moves)", flush=True)
+
+
+def replay_case2(rp, work):
+    """Re-run one recorded two-jump case: TLC recomputes the demanded result."""
+    consts = rp["constants"]
+    case = tuple(tuple(x) if isinstance(x, list) else x for x in rp["case2"])
+
+    def tla(x):
+        if isinstance(x, tuple):
+            return "<<" + ", ".join(tla(v) for v in x) + ">>"
+        return str(x)
+    write_model(work, consts, "{30}")
+    with open(os.path.join(work, "MC_WfMove2.tla"), "w") as fh:
+        fh.write("---- MODULE MC_WfMove2 ----\nEXTENDS WfMove\n" + f"MLs == {{30}}\nWallDef == {consts['Wall']}\n"
+                 "Cases == {" + tla(case) + "}\n"
+                 "BatchInit == /\\ res \\in Cases /\\ old = <<>> /\\ pick = 0 /\\ idx = 0 /\\ sb = <<>> /\\ sf = <<>> /\\ eb = <<>> /\\ ef = <<>>\n"
+                 "             /\\ maxlength = 0 /\\ done = FALSE\n"
+                 "BatchApply == /\\ ~done /\\ done' = TRUE /\\ res' = [case |-> res, out |-> Result2(res)]\n"
+                 "              /\\ UNCHANGED <<old, pick, idx, sb, sf, eb, ef, maxlength>>\n"
+                 "BatchSpec == BatchInit /\\ [][BatchApply]_vars\n====\n")
+    cfg = os.path.join(work, "WfMove2.cfg")
+    with open(cfg, "w") as fh:
+        fh.write("SPECIFICATION BatchSpec\nCONSTANTS\n" + "".join(f"  {k} = {v}\n" for k, v in consts.items() if k != "Wall")
+                 + "  Wall <- WallDef\n  MaxLengths <- MLs\nCHECK_DEADLOCK FALSE\n")
+    dot = os.path.join(work, "wf2.dot")
+    tlc.run_tlc(os.path.join(work, "MC_WfMove2.tla"), cfg, dump=dot, timeout=600, allow_violation=True, cwd=work, coverage=False)
+    raw, _i, _e = tlc.read_dot(dot, parse=False)
+    exe = os.path.join(work, "exe")
+    os.makedirs(exe)
+    fails = []
+    for sid in raw:
+        st = tlc.parse_state(raw[sid])
+        if st["done"] and st["res"]["out"]["feasible"]:
+            fails += run_case2(tuple(st["res"]["case"]), st["res"]["out"], exe) or []
+    return fails
